@@ -320,7 +320,7 @@ func (r *RegRun) ProbeLite() (trace.M, int) {
 	p := &Prober{C: r.C, From: ProberAcct}
 	out := trace.M{}
 	for _, n := range r.U.Cands {
-		raw := p.EthCall(Req{r.U.Addr[n], Inputs["in1"], "direct"})
+		raw := p.EthCall(Req{r.U.Addr[n], Inputs["in1"], "direct", 0})
 		out[n] = hClass(r.T, raw.HSeen, raw.HErr, raw.HOut) + "|" + uClass(r.T, "eth_call", "direct", raw)
 	}
 	return out, len(r.U.Cands)
@@ -329,55 +329,57 @@ func (r *RegRun) ProbeLite() (trace.M, int) {
 // Probe runs the probe matrix against the current committed state and returns the "probe" object:
 //
 //	addr -> { "d1": [6 x "h|u"], "d2": [...], "x1": [...], "xk": [6 x proxy kind] }   (index = mode order of Modes)
-func (r *RegRun) Probe(plan ProbePlan) (trace.M, int) {
-	if !plan.Full {
-		return r.ProbeLite()
+// cell is one probe: a candidate address, the column and mode it is reported under, and the request.
+type cell struct {
+	addr, col string
+	mode      int
+	q         Req
+	skip      bool
+}
+
+// shortInputs are calldata shorter than a 4-byte selector.
+var shortInputs = map[string][]byte{"s1": {0x06}, "s2": {0x06, 0xfd}, "s3": {0x06, 0xfd, 0xde}}
+
+// inputBytes maps an input name to calldata: in1 = name(), in2 = bech32 prefix view, e = empty, s1..s3 = 1-3 bytes.
+func inputBytes(name string) []byte {
+	if b, ok := Inputs[name]; ok {
+		return b
 	}
+	if b, ok := shortInputs[name]; ok {
+		return b
+	}
+	if name == "e" {
+		return []byte{}
+	}
+	panic("input " + name)
+}
+
+// runCells executes the probes (query-like modes first, then CheckTx, then real blocks) and returns one
+// "hook-class|user-class" string per cell.
+func (r *RegRun) runCells(cells []cell) []string {
 	p := &Prober{C: r.C, From: ProberAcct}
-	type cell struct {
-		addr, col string
-		mode      int
-		q         Req
-	}
-	var cells []cell
-	kinds := map[string][]string{}
-	for ai, n := range r.U.Cands {
-		a := r.U.Addr[n]
-		for mi := range Modes {
-			cells = append(cells, cell{n, "d1", mi, Req{a, Inputs["in1"], "direct"}})
-			if plan.Full {
-				cells = append(cells, cell{n, "d2", mi, Req{a, Inputs["in2"], "direct"}})
-				k := ProxyKinds[(ai+mi+r.step)%len(ProxyKinds)]
-				kinds[n] = append(kinds[n], k)
-				cells = append(cells, cell{n, "x1", mi, Req{a, Inputs["in1"], k}})
-			}
-		}
-	}
 	res := make([]Raw, len(cells))
-	skipped := map[int]bool{}
 	n0 := r.C.Seq(p.From.Addr) // committed nonce: nothing has touched the check state since the last commit
-	// query-like modes first: they do not change any state
 	for i, c := range cells {
+		if c.skip {
+			continue
+		}
 		switch Modes[c.mode] {
 		case "simulate":
-			res[i] = p.Simulate(c.q, n0)
+			res[i] = safely(func() Raw { return p.Simulate(c.q, n0) })
 		case "eth_call":
-			res[i] = p.EthCall(c.q)
+			res[i] = safely(func() Raw { return p.EthCall(c.q) })
 		case "estimate":
-			if c.col == "d1" {
-				res[i] = p.Estimate(c.q) // a binary search of ~18 executions: only for the plain name() probe
-			} else {
-				skipped[i] = true
-			}
+			res[i] = safely(func() Raw { return p.Estimate(c.q) })
 		case "trace":
-			res[i] = p.Trace(c.q, n0)
+			res[i] = safely(func() Raw { return p.Trace(c.q, n0) })
 		}
 	}
 	// CheckTx: every admitted tx advances the sequence in the check state
 	nc := n0
 	for i, c := range cells {
-		if Modes[c.mode] == "check" {
-			res[i] = p.Check(c.q, nc)
+		if Modes[c.mode] == "check" && !c.skip {
+			res[i] = safely(func() Raw { return p.Check(c.q, nc) })
 			if res[i].Admit {
 				nc++
 			}
@@ -387,7 +389,7 @@ func (r *RegRun) Probe(plan ProbePlan) (trace.M, int) {
 	var dreq []Req
 	var didx []int
 	for i, c := range cells {
-		if Modes[c.mode] == "deliver" {
+		if Modes[c.mode] == "deliver" && !c.skip {
 			dreq = append(dreq, c.q)
 			didx = append(didx, i)
 		}
@@ -395,6 +397,107 @@ func (r *RegRun) Probe(plan ProbePlan) (trace.M, int) {
 	for j, raw := range p.Deliver(dreq, n0) {
 		res[didx[j]] = raw
 	}
+	out := make([]string, len(cells))
+	for i, c := range cells {
+		if c.skip {
+			out[i] = "skipped"
+			continue
+		}
+		out[i] = hClass(r.T, res[i].HSeen, res[i].HErr, res[i].HOut) + "|" + uClass(r.T, Modes[c.mode], c.q.Via, res[i])
+	}
+	return out
+}
+
+// safely turns a panic of a query entry point into a refused probe (class "unseen|refused").
+func safely(f func() Raw) (raw Raw) {
+	defer func() {
+		if rec := recover(); rec != nil {
+			obs.Drain()
+			raw = Raw{Detail: "panic: " + trunc(fmt.Sprint(rec), 120)}
+		}
+	}()
+	return f()
+}
+
+func (r *RegRun) balOf(n string) int64 { return trace.I(r.C.Bal(r.U.Addr[n], chain.Denom)) }
+
+// ProbeFields returns the probe fields of a trace line.
+//
+// Full plan:  "probe": addr -> { "d1","d2","x1","e0","e1","r": [6 cells in the order of Modes], "xk": proxy kind of x1 per mode,
+//
+//	"rin","rvia","rval": input / route / value of the rotating column r per mode },  "bal": addr -> [before, after]
+//	  d1 = name() direct             d2 = bech32 prefix view direct        x1 = name() through a proxy
+//	  e0 = EMPTY calldata, value 0, direct     e1 = EMPTY calldata, value 1, direct
+//	  r  = rotating: 1-3 byte calldata direct | empty calldata via proxy | empty calldata + value 1 via proxy | short calldata via proxy
+//	  eth_estimateGas (a binary search of ~18 executions) runs for d1 and e0 only; e1 and r run in deliver, simulate and
+//	  eth_call only; the other cells say "skipped".
+//
+// Otherwise:  "probe": addr -> cell (eth_call, name(), every candidate)  and
+//
+//	"reg0": registered addr -> [6 cells]: EMPTY calldata, value 0, direct, in every mode.
+func (r *RegRun) ProbeFields(plan ProbePlan) (trace.M, int) {
+	if !plan.Full {
+		lite, n := r.ProbeLite()
+		var cells []cell
+		for _, a := range r.registered() {
+			for mi := range Modes {
+				cells = append(cells, cell{a, "e0", mi, Req{r.U.Addr[a], []byte{}, "direct", 0}, false})
+			}
+		}
+		reg0 := trace.M{}
+		for i, sres := range r.runCells(cells) {
+			arr, _ := reg0[cells[i].addr].([]string)
+			reg0[cells[i].addr] = append(arr, sres)
+		}
+		r.step++
+		return trace.M{"probe": lite, "full": false, "reg0": reg0}, n + len(cells)
+	}
+	var cells []cell
+	extra := map[string]map[string][]interface{}{}
+	for ai, n := range r.U.Cands {
+		a := r.U.Addr[n]
+		extra[n] = map[string][]interface{}{}
+		one := int64(1)
+		if n == "mod" {
+			one = 0 // a module account is a blocked bank recipient: a value transfer to it panics in the bank hook (not C17's business)
+		}
+		for mi := range Modes {
+			est := Modes[mi] == "estimate"
+			few := Modes[mi] != "deliver" && Modes[mi] != "simulate" && Modes[mi] != "eth_call" // e1 and r: three modes only
+			k := ProxyKinds[(ai+mi+r.step)%len(ProxyKinds)]
+			cells = append(cells,
+				cell{n, "d1", mi, Req{a, inputBytes("in1"), "direct", 0}, false},
+				cell{n, "d2", mi, Req{a, inputBytes("in2"), "direct", 0}, est},
+				cell{n, "x1", mi, Req{a, inputBytes("in1"), k, 0}, est},
+				cell{n, "e0", mi, Req{a, []byte{}, "direct", 0}, false},
+				cell{n, "e1", mi, Req{a, []byte{}, "direct", one}, few})
+			extra[n]["xk"] = append(extra[n]["xk"], k)
+			// rotating column
+			k2 := ProxyKinds[(ai+2*mi+r.step+1)%len(ProxyKinds)]
+			sn := fmt.Sprintf("s%d", 1+(ai+mi+r.step)%3)
+			var rin, rvia string
+			var rval int64
+			switch (ai + mi + 2*r.step) % 4 {
+			case 0:
+				rin, rvia, rval = sn, "direct", 0
+			case 1:
+				rin, rvia, rval = "e", k2, 0
+			case 2:
+				rin, rvia, rval = "e", k2, one
+			default:
+				rin, rvia, rval = sn, k2, 0
+			}
+			cells = append(cells, cell{n, "r", mi, Req{a, inputBytes(rin), rvia, rval}, few})
+			extra[n]["rin"] = append(extra[n]["rin"], rin)
+			extra[n]["rvia"] = append(extra[n]["rvia"], rvia)
+			extra[n]["rval"] = append(extra[n]["rval"], rval)
+		}
+	}
+	before := map[string]int64{}
+	for _, n := range r.U.Cands {
+		before[n] = r.balOf(n)
+	}
+	strs := r.runCells(cells)
 	out := trace.M{}
 	for i, c := range cells {
 		m, ok := out[c.addr].(trace.M)
@@ -403,20 +506,24 @@ func (r *RegRun) Probe(plan ProbePlan) (trace.M, int) {
 			out[c.addr] = m
 		}
 		arr, _ := m[c.col].([]string)
-		raw := res[i]
-		s := hClass(r.T, raw.HSeen, raw.HErr, raw.HOut) + "|" + uClass(r.T, Modes[c.mode], c.q.Via, raw)
-		if skipped[i] {
-			s = "skipped"
-		}
-		m[c.col] = append(arr, s)
+		m[c.col] = append(arr, strs[i])
 	}
-	if plan.Full {
-		for n, ks := range kinds {
-			out[n].(trace.M)["xk"] = ks
+	bal := trace.M{}
+	for _, n := range r.U.Cands {
+		for k, v := range extra[n] {
+			out[n].(trace.M)[k] = v
 		}
+		bal[n] = []int64{before[n], r.balOf(n)}
 	}
 	r.step++
-	return out, len(cells)
+	return trace.M{"probe": out, "full": true, "bal": bal}, len(cells)
+}
+
+func withFields(line trace.M, f trace.M) trace.M {
+	for k, v := range f {
+		line[k] = v
+	}
+	return line
 }
 
 func pairOf(cls string) []string {
@@ -432,7 +539,11 @@ func (r *RegRun) StdTable() trace.M {
 	for _, n := range r.U.Cands {
 		a := r.U.Addr[n]
 		if _, ok := corevm.PrecompiledContractsBerlin[a]; ok {
-			out[n] = trace.M{"in1": pairOf(StdRef(r.T, a, Inputs["in1"])), "in2": pairOf(StdRef(r.T, a, Inputs["in2"]))}
+			m := trace.M{}
+			for _, in := range []string{"in1", "in2", "e", "s1", "s2", "s3"} {
+				m[in] = pairOf(StdRef(r.T, a, inputBytes(in)))
+			}
+			out[n] = m
 		}
 	}
 	return out
@@ -660,14 +771,14 @@ func (r *RegRun) genesisLine(tid string, g genCfg, plan ProbePlan) trace.M {
 		accts[n] = strings.ToLower(a.Addr.Hex())
 	}
 	reg := r.Project()
-	probe, _ := r.Probe(plan)
+	pf, _ := r.ProbeFields(plan)
 	dyn := []string{}
 	for k := 0; k < r.U.NDyn; k++ {
 		dyn = append(dyn, fmt.Sprintf("dyn%d", k))
 	}
-	return trace.M{"ev": "Genesis", "tid": tid, "d": 0, "flags": trace.M{"erc20": g.Erc20Native, "staking": g.Staking}, "wl": g.wlNames,
+	return withFields(trace.M{"ev": "Genesis", "tid": tid, "d": 0, "flags": trace.M{"erc20": g.Erc20Native, "staking": g.Staking}, "wl": g.wlNames,
 		"cands": r.U.Cands, "dyn": dyn, "std": r.StdTable(), "modes": Modes, "bondDenom": chain.Denom, "hrp": r.T.T(sdk.GetConfig().GetBech32AccountAddrPrefix()),
-		"reg": reg, "probe": probe, "full": plan.Full}
+		"reg": reg}, pf)
 }
 
 // GenRegistry writes the registry traces: for each genesis configuration the exhaustive op tree up to Depth in DFS
@@ -716,7 +827,7 @@ func GenRegistry(w *trace.W, o RegGenOpts) RegStats {
 				child := r.clone()
 				opj, res := child.Apply(op)
 				plan := ProbePlan{Full: o.FullEach || (res["ok"].(bool) && firstVisit(seen, child))}
-				probe, n := child.Probe(plan)
+				pf, n := child.ProbeFields(plan)
 				st.Probes += n
 				st.Nodes++
 				if res["ok"].(bool) {
@@ -725,7 +836,7 @@ func GenRegistry(w *trace.W, o RegGenOpts) RegStats {
 					st.Rejected++
 				}
 				st.Classes[op.K+"/"+fmt.Sprint(res["ok"])]++
-				w.Emit(trace.M{"ev": "Op", "d": depth, "op": opj, "res": res, "reg": child.Project(), "probe": probe, "full": plan.Full, "txt": op.String()})
+				w.Emit(withFields(trace.M{"ev": "Op", "d": depth, "op": opj, "res": res, "reg": child.Project(), "txt": op.String()}, pf))
 				dfs(child, depth+1, nil)
 			}
 		}
@@ -747,9 +858,10 @@ func GenRegistry(w *trace.W, o RegGenOpts) RegStats {
 				if r.versionAbove1() {
 					line["probe"], line["full"], line["noprobe"] = trace.M{}, false, true
 				} else {
-					probe, n := r.Probe(ProbePlan{Full: true})
+					pf, n := r.ProbeFields(ProbePlan{Full: true})
 					st.Probes += n
-					line["probe"], line["full"] = probe, true
+					line = withFields(line, pf)
+					line["reg"] = r.Project()
 				}
 				w.Emit(line)
 				st.Nodes++
@@ -784,9 +896,9 @@ func GenRegistry(w *trace.W, o RegGenOpts) RegStats {
 				// a protocol version the pinned binary does not know: the EVM wiring panics by design; no probes
 				w.Emit(trace.M{"ev": "Op", "d": k, "op": opj, "res": res, "reg": r.Project(), "probe": trace.M{}, "full": false, "noprobe": true, "txt": op.String()})
 			} else {
-				probe, n := r.Probe(plan)
+				pf, n := r.ProbeFields(plan)
 				st.Probes += n
-				w.Emit(trace.M{"ev": "Op", "d": k, "op": opj, "res": res, "reg": r.Project(), "probe": probe, "full": plan.Full, "txt": op.String()})
+				w.Emit(withFields(trace.M{"ev": "Op", "d": k, "op": opj, "res": res, "reg": r.Project(), "txt": op.String()}, pf))
 			}
 			st.Nodes++
 			if res["ok"].(bool) {
